@@ -176,8 +176,10 @@ func (x *Exec) instr(fr *frame, ins ssa.Instruction, st *State, r string) (strin
 			_, _ = x.callCommon(fr, d.call, &d.call.Call, st, and(r, d.reach), true)
 		}
 	case *ssa.Lookup:
+		x.guardedAccess(fr, i, i.X, st, r)
 		r = x.lookup(fr, i, st, r)
 	case *ssa.MapUpdate:
+		x.guardedAccess(fr, i, i.Map, st, r)
 		m := x.val(fr, i.Map)[0].T
 		r = x.guard(fr, ins, r, not(eq(m, "0")), "nil-map")
 		fam := vc.mapFamily(i.Map.Type().Underlying().(*types.Map))
@@ -189,6 +191,9 @@ func (x *Exec) instr(fr *frame, ins ssa.Instruction, st *State, r string) (strin
 		x.setVal(fr, i, Val{ic(vc.S.freshConst("iter", false))})
 		x.rangeInit(fr, i, st, r)
 	case *ssa.Next:
+		if rg, ok := i.Iter.(*ssa.Range); ok {
+			x.guardedAccess(fr, i, rg.X, st, r)
+		}
 		x.next(fr, i, st, r)
 	case *ssa.Send:
 		if x.trace != nil {
@@ -486,4 +491,56 @@ func (x *Exec) next(fr *frame, i *ssa.Next, st *State, r string) {
 // initialised from constants and never written outside init.
 func (x *Exec) globalConst(g *ssa.Global) (Val, bool) {
 	return x.eng.globalInit(x, g)
+}
+
+// guardedAccess: `guarded_by <mutex field>: <field>, ...` on the top-level contract makes every
+// access to the named fields of the receiver an obligation: the mutex is held at that point.
+func (x *Exec) guardedAccess(fr *frame, ins ssa.Instruction, v ssa.Value, st *State, r string) {
+	if !fr.top || fr.c == nil || len(fr.c.Raw["guarded_by"]) == 0 {
+		return
+	}
+	base, field := fieldOrigin(v)
+	if base == nil || len(fr.fn.Params) == 0 || base != ssa.Value(fr.fn.Params[0]) {
+		return
+	}
+	for _, g := range fr.c.Raw["guarded_by"] {
+		k := strings.Index(g, ":")
+		if k < 0 {
+			continue
+		}
+		mu := strings.TrimSpace(g[:k])
+		if j := strings.LastIndex(mu, "."); j >= 0 {
+			mu = mu[j+1:]
+		}
+		for _, f := range strings.Split(g[k+1:], ",") {
+			f = strings.TrimSpace(f)
+			if j := strings.LastIndex(f, "."); j >= 0 {
+				f = f[j+1:]
+			}
+			if f != field {
+				continue
+			}
+			recv := x.val(fr, fr.fn.Params[0])
+			off, _ := x.fieldAt(fr.fn.Params[0].Type(), mu)
+			key := lockKey(x.vc, Val{recv[0], ic(add(recv[1].T, itoa(int64(off))))})
+			x.nGuarded++
+			x.vc.oblige(fmt.Sprintf("%s#guarded:%s-under-%s.%d", x.eng.fnKey(fr.fn), field, mu, x.nGuarded), "guarded", r, eq(ghost(st, key), "1"), x.eng.pos(ins.Pos()))
+		}
+	}
+}
+
+// fieldOrigin: v is (a load of) base.field
+func fieldOrigin(v ssa.Value) (ssa.Value, string) {
+	if u, ok := v.(*ssa.UnOp); ok {
+		v = u.X
+	}
+	fa, ok := v.(*ssa.FieldAddr)
+	if !ok {
+		return nil, ""
+	}
+	st, ok := deref(fa.X.Type()).Underlying().(*types.Struct)
+	if !ok {
+		return nil, ""
+	}
+	return fa.X, st.Field(fa.Field).Name()
 }
